@@ -8,26 +8,46 @@ import FsModel.Ref
 import FsProofs.Lemmas.TreeLemmas
 
 namespace Fs.C01
-open Fs Fs.Ref
+open Fs Fs.Ref Fs.TreeLemmas
 
 /-- the root of the reference state is always a directory -/
 theorem ref_root_is_dir (s : State) (op : Op) (h : s.root.isDir = true) :
     (step s op).1.root.isDir = true := by
-  sorry
+  cases step_case s op with
+  | close _ h' => rw [h']; exact h
+  | fail e _ h' => rw [h']; exact h
+  | one p cs _ _ _ h' => rw [h']; exact eff1_isDir (eff1 s cs op) h
+  | two p q a b _ _ _ _ h' => rw [h']; exact eff2_isDir (eff2 s a b op) h
 
 /-- every reference step preserves well-formedness of the tree (legal, unique names) -/
 theorem ref_wf_preserved (s : State) (op : Op) (hd : s.root.isDir = true) (h : s.root.wf = true) :
     (step s op).1.root.wf = true := by
-  sorry
+  have _ := hd
+  cases step_case s op with
+  | close _ h' => rw [h']; exact h
+  | fail e _ h' => rw [h']; exact h
+  | one p cs _ _ hv h' => rw [h']; exact eff1_wf (eff1 s cs op) (validate_clean p cs hv) h
+  | two p q a b _ _ _ hv h' => rw [h']; exact eff2_wf (eff2 s a b op) (validate_clean q b hv) h
 
 /-- hence every reachable reference state is a well-formed tree -/
 theorem ref_wf_reachable (ops : List Op) :
     (run State.empty ops).1.root.wf = true ∧ (run State.empty ops).1.root.isDir = true := by
-  sorry
+  have key : ∀ (ops : List Op) (s : State), s.root.wf = true → s.root.isDir = true →
+      (run s ops).1.root.wf = true ∧ (run s ops).1.root.isDir = true := by
+    intro ops
+    induction ops with
+    | nil => intro s h1 h2; exact ⟨h1, h2⟩
+    | cons op ops ih =>
+      intro s h1 h2
+      simp only [run]
+      exact ih _ (ref_wf_preserved s op h2 h1) (ref_root_is_dir s op h2)
+  exact key ops State.empty rfl rfl
 
 theorem run_append (s : State) (a b : List Op) :
     run s (a ++ b) = ((run (run s a).1 b).1, (run s a).2 ++ (run (run s a).1 b).2) := by
-  sorry
+  induction a generalizing s with
+  | nil => simp [run]
+  | cons op ops ih => simp [run, ih]
 
 /-- The induction behind the step-wise correspondence: if an implementation (any state type
 `σ`, observed through `abs`) agrees with `Ref.step` on every single step from every state —
@@ -38,12 +58,30 @@ theorem stepwise_agreement_lifts {σ : Type} (impl : σ → Op → σ × Out) (a
     let runImpl : σ → List Op → σ × List Out := fun x ops =>
       ops.foldl (fun acc op => let r := impl acc.1 op; (r.1, acc.2 ++ [r.2])) (x, [])
     abs (runImpl x ops).1 = (run (abs x) ops).1 ∧ (runImpl x ops).2 = (run (abs x) ops).2 := by
-  sorry
+  intro runImpl
+  have key : ∀ (ops : List Op) (x : σ) (outs : List Out),
+      abs (ops.foldl (fun acc op => let r := impl acc.1 op; (r.1, acc.2 ++ [r.2])) (x, outs)).1
+        = (run (abs x) ops).1 ∧
+      (ops.foldl (fun acc op => let r := impl acc.1 op; (r.1, acc.2 ++ [r.2])) (x, outs)).2
+        = outs ++ (run (abs x) ops).2 := by
+    intro ops
+    induction ops with
+    | nil => intro x outs; simp [run]
+    | cons op ops ih =>
+      intro x outs
+      simp only [List.foldl_cons, run]
+      obtain ⟨h1, h2⟩ := ih (impl x op).1 (outs ++ [(impl x op).2])
+      rw [h1, h2, (hstep x op).1, (hstep x op).2]
+      simp
+  have := key ops x []
+  simpa using this
 
 /-- after `close`, nothing changes and every operation reports FilesystemClosed -/
 theorem closed_is_final (s : State) (op : Op) (h : s.closed = true) (hop : op ≠ .close) :
     step s op = (s, .err .FilesystemClosed) := by
-  sorry
+  cases op <;> first
+    | exact absurd rfl hop
+    | simp [step, h, Ref.fail]
 
 example : (run State.empty [.makedir "a".toList false, .writebytes "a/f".toList [1, 2], .readbytes "/a/./f".toList]).2
     = [.ok .unit, .ok .unit, .ok (.bytes [1, 2])] := by decide
